@@ -455,7 +455,9 @@ def trace_validation(ctx):
                     break
                 pairs += [(a.vertices[q], b.vertices[q]) for q in range(len(a.vertices))]
             for pa, pb in pairs:
-                sep = pa.transform_to(pb.frame).separation(pb).deg
+                with warnings.catch_warnings():
+                    warnings.simplefilter('ignore')
+                    sep = pa.transform_to(pb.frame).separation(pb).deg
                 ev['got'].append(int(round(sep / unit_pos * 1000)))
                 ev['half'].append(800 + int(math.ceil(1e-9 / unit_pos * 1000)))        # sqrt(2)/2 unit in two coordinates, plus transform noise
             for nm in ('radius', 'width', 'height', 'inner_radius', 'outer_radius'):
